@@ -62,10 +62,31 @@ template <class X> static void do_normalize(X&, std::false_type) {}
 template <class X> static void do_normalize(X& x) { do_normalize(x, std::integral_constant<bool, Info<G>::rot != NONE>()); }
 
 // Jacobian hosts: the requested output is bound to the interior block (2,2) of a NaN-painted larger matrix
+static const int BN = (DOF > (int)G::Dim ? DOF : (int)G::Dim);   // largest Jacobian block side (act has Dim x DoF, Dim x Dim)
 struct Host {
-  Eigen::Matrix<S, DOF + 4, DOF + 4> h;
+  Eigen::Matrix<S, BN + 4, BN + 4> h;
   Host() { h.setConstant(canary()); }
   tl::optional<Eigen::Ref<Jac>> ref(bool on) { if (!on) return {}; return tl::optional<Eigen::Ref<Jac>>(h.template block<DOF, DOF>(2, 2)); }
+};
+
+// act() has Jacobians of shape Dim x DoF and Dim x Dim: bound to interior blocks of their own NaN-painted hosts and
+// then copied (with the paint) into the common (DoF+4)^2 host format so that the trace spec treats them uniformly:
+// rows/cols beyond the block stay NaN; the spec's frame check for act uses the logged dimensions.
+struct Host2 {
+  Eigen::Matrix<S, G::Dim + 4, DOF + 4> ha; Eigen::Matrix<S, G::Dim + 4, G::Dim + 4> hp;
+  Host2() { ha.setConstant(canary()); hp.setConstant(canary()); }
+  tl::optional<Eigen::Ref<Eigen::Matrix<S, G::Dim, DOF>>> refA(bool on) { if (!on) return {}; return tl::optional<Eigen::Ref<Eigen::Matrix<S, G::Dim, DOF>>>(ha.template block<G::Dim, DOF>(2, 2)); }
+  tl::optional<Eigen::Ref<Eigen::Matrix<S, G::Dim, G::Dim>>> refP(bool on) { if (!on) return {}; return tl::optional<Eigen::Ref<Eigen::Matrix<S, G::Dim, G::Dim>>>(hp.template block<G::Dim, G::Dim>(2, 2)); }
+  bool frame_ok(bool j1, bool j2) const {
+    for (int i = 0; i < ha.rows(); ++i) for (int j = 0; j < ha.cols(); ++j) { bool in = j1 && i >= 2 && i < 2 + G::Dim && j >= 2 && j < 2 + DOF; if (in == is_canary(ha(i, j))) return false; }
+    for (int i = 0; i < hp.rows(); ++i) for (int j = 0; j < hp.cols(); ++j) { bool in = j2 && i >= 2 && i < 2 + G::Dim && j >= 2 && j < 2 + G::Dim; if (in == is_canary(hp(i, j))) return false; }
+    return true; }
+  // copy the true-shaped blocks into the common hosts; a frame violation poisons the block with NaN
+  void copy_to(Host* HH, bool j1, bool j2) const {
+    bool ok = frame_ok(j1, j2);
+    if (j1) { HH[0].h.template block<G::Dim, DOF>(2, 2) = ha.template block<G::Dim, DOF>(2, 2); if (!ok) HH[0].h(2, 2) = canary(); }
+    if (j2) { HH[1].h.template block<G::Dim, G::Dim>(2, 2) = hp.template block<G::Dim, G::Dim>(2, 2); if (!ok) HH[1].h(2, 2) = canary(); }
+  }
 };
 
 static void log_state(Out& o, Machine& m) {
@@ -118,6 +139,8 @@ int main(int argc, char** argv) {
     noise((int)(step + nb));
     Host H[2]; int nj = 0; bool isT = false, have_twin = false;
     G res; T tres; G twin; T ttwin;
+    std::vector<double> ores, otwin; bool isO = false;
+    auto flat = [](std::vector<double>& v, const auto& mtx) { v.clear(); for (int i = 0; i < mtx.rows(); ++i) for (int j = 0; j < mtx.cols(); ++j) v.push_back((double)mtx(i, j)); };
     // one evaluation of the planned call with output mask mk into hosts HH (operands are not yet modified)
     auto evalop = [&](int mk, Host* HH, G& res, T& tres, bool dotwin) {
       bool j1 = mk & 1, j2 = mk & 2;
@@ -152,6 +175,27 @@ int main(int argc, char** argv) {
           if (op == "rminus") { tres = X.rminus(Y, HH[0].ref(j1), HH[1].ref(j2)); if (dotwin) ttwin = Xo.rminus(Yo); }
           else { tres = X.lminus(Y, HH[0].ref(j1), HH[1].ref(j2)); if (dotwin) ttwin = Xo.lminus(Yo); }
           have_twin = true; }); });
+      } else if (op == "act" || op == "adj" || op == "transform") {
+        isO = true; nj = op == "act" ? 2 : 0;
+        withG(m, a, [&](const auto& X) { G Xo = X;
+          typename G::Vector pnt; for (int i = 0; i < G::Dim; ++i) pnt(i) = (S)(0.25 + 0.5 * i);
+          if (op == "act") {
+            Host2 HA; // act has differently shaped Jacobians: Dim x DoF and Dim x Dim
+            auto v = X.act(pnt, HA.refA(j1), HA.refP(j2)); flat(ores, v); if (dotwin) { auto w = Xo.act(pnt); flat(otwin, w); }
+            HA.copy_to(HH, j1, j2);
+          } else if (op == "adj") { flat(ores, X.adj()); if (dotwin) flat(otwin, Xo.adj()); }
+          else { flat(ores, X.transform()); if (dotwin) flat(otwin, Xo.transform()); }
+          have_twin = true; });
+      } else if (op == "rjac" || op == "ljac" || op == "rjacinv" || op == "smallAdj" || op == "hat" || op == "inner") {
+        isO = true; nj = 0;
+        withT(m, a, [&](const auto& t) { T to = t;
+          if (op == "rjac") { flat(ores, t.rjac()); if (dotwin) flat(otwin, to.rjac()); }
+          else if (op == "ljac") { flat(ores, t.ljac()); if (dotwin) flat(otwin, to.ljac()); }
+          else if (op == "rjacinv") { flat(ores, t.rjacinv()); if (dotwin) flat(otwin, to.rjacinv()); }
+          else if (op == "smallAdj") { flat(ores, t.smallAdj()); if (dotwin) flat(otwin, to.smallAdj()); }
+          else if (op == "hat") { flat(ores, t.hat()); if (dotwin) flat(otwin, to.hat()); }
+          else { withT(m, b, [&](const auto& s2) { T so = s2; Eigen::Matrix<S, 1, 1> v; v(0, 0) = t.inner(s2); flat(ores, v); if (dotwin) { Eigen::Matrix<S, 1, 1> w; w(0, 0) = to.inner(so); flat(otwin, w); } }); }
+          have_twin = true; });
       } else if (op == "normalize") { withG(m, dst, [&](const auto& X) { res = X; }); do_normalize(res); }
       else if (op == "setIdentity") { res.setIdentity(); }
       else if (op == "setRandom") { res.setRandom(); }
@@ -167,19 +211,22 @@ int main(int argc, char** argv) {
       int nm = nj == 2 ? 4 : 2; bool firstalt = true;
       for (int mk = 0; mk < nm; ++mk) {
         if (mk == mask) continue;
-        Host HA[2]; G r2; T t2; evalop(mk, HA, r2, t2, false);
+        Host HA[2]; G r2; T t2; std::vector<double> keep = ores; evalop(mk, HA, r2, t2, false); std::vector<double> alt = ores; ores.swap(keep); keep.swap(alt);
         std::ostringstream ss; ss << (firstalt ? "" : ",") << "[" << mk << ",[";
         auto bits = [&](double d) { uint64_t bb; std::memcpy(&bb, &d, 8); ss << "[" << (int32_t)(bb >> 32) << "," << (int32_t)(bb & 0xffffffffu) << "]"; };
-        if (isT) for (int i = 0; i < DOF; ++i) { if (i) ss << ","; bits((double)t2.coeffs()(i)); } else for (int i = 0; i < REP; ++i) { if (i) ss << ","; bits((double)r2.coeffs()(i)); }
+        if (isO) for (size_t i = 0; i < keep.size(); ++i) { if (i) ss << ","; bits(keep[i]); }
+        else if (isT) for (int i = 0; i < DOF; ++i) { if (i) ss << ","; bits((double)t2.coeffs()(i)); } else for (int i = 0; i < REP; ++i) { if (i) ss << ","; bits((double)r2.coeffs()(i)); }
         ss << "]";
-        for (int k = 0; k < 2; ++k) { ss << ",["; if (k < nj && (mk & (1 << k))) for (int i = 0; i < DOF; ++i) { if (i) ss << ","; ss << "["; for (int j = 0; j < DOF; ++j) { if (j) ss << ","; bits((double)HA[k].h(i + 2, j + 2)); } ss << "]"; } ss << "]"; }
+        for (int k = 0; k < 2; ++k) { ss << ",["; int jr = op == "act" ? (int)G::Dim : DOF, jc = (op == "act" && k == 1) ? (int)G::Dim : DOF;
+          if (k < nj && (mk & (1 << k))) for (int i = 0; i < jr; ++i) { if (i) ss << ","; ss << "["; for (int j = 0; j < jc; ++j) { if (j) ss << ","; bits((double)HA[k].h(i + 2, j + 2)); } ss << "]"; } ss << "]"; }
         ss << "]"; alts += ss.str(); firstalt = false;
       }
     }
     alts += "]";
 
     // write the destination through its own storage kind, using the API's own mutating form where one exists
-    if (!isT) {
+    if (isO) { /* observers write no location */ }
+    else if (!isT) {
       withGMut(m, dst, [&](auto& D) {
         // in-place forms: the owning computation done above becomes the twin, the logged result is what D holds now
         if (op == "pluseq") { withT(m, a, [&](const auto& t) { D += t; }); res = D; }
@@ -194,10 +241,12 @@ int main(int argc, char** argv) {
     }
     o.begin("step"); o.raw("g", Info<G>::name()); o.str("sc", ScalarName<S>::n()); o.num("i", step); o.str("op", op); o.str("dst", dst); o.str("a", a); o.str("b", b); o.num("mask", mask);
     o.num("rid", std::atol(pl[6].c_str())); put_ints(o, "ids", ints(pl[7])); put_ints(o, "pg", ints(pl[8])); put_ints(o, "pt", ints(pl[9]));
-    o.num("isT", isT ? 1 : 0);
-    if (isT) o.vec("res", tres.coeffs()); else o.vec("res", res.coeffs());
-    if (have_twin) { if (isT) o.vec("twin", ttwin.coeffs()); else o.vec("twin", twin.coeffs()); }
+    o.num("isT", isO ? 2 : isT ? 1 : 0);
+    auto putv = [&](const char* k, const std::vector<double>& v) { o.key(k); std::fputc('[', o.f); for (size_t i = 0; i < v.size(); ++i) { if (i) std::fputc(',', o.f); o.bits(v[i]); } std::fputc(']', o.f); };
+    if (isO) putv("res", ores); else if (isT) o.vec("res", tres.coeffs()); else o.vec("res", res.coeffs());
+    if (have_twin) { if (isO) putv("twin", otwin); else if (isT) o.vec("twin", ttwin.coeffs()); else o.vec("twin", twin.coeffs()); }
     log_hosts(o, H, nj, mask); o.raw("alts", alts);
+    o.num("jr", op == "act" ? (long)G::Dim : (long)DOF); o.num("jc1", (long)DOF); o.num("jc2", op == "act" ? (long)G::Dim : (long)DOF);
     log_state(o, m); o.end();
   }
   out().close();
